@@ -150,6 +150,8 @@ type c01E2ECase struct {
 	cCk, rCk   []*http.Cookie
 	hostHdr    string
 	bodyKind   string
+	readSizes  []int  // body kind "reader": the read script of the shared reader-behaviour generator
+	readEnding string // "eof" (0, io.EOF) after the last bytes / "eofl" the last bytes together with io.EOF
 	body       []byte
 	order      []string
 	pseudo     []string
@@ -255,6 +257,13 @@ func c01GenE2E(r *rand.Rand) *c01E2ECase {
 			n = r.Intn(300)
 		}
 		tc.body = c01GenBody(n, 1+r.Intn(250), r.Intn(251))
+	}
+	if tc.bodyKind == "reader" {
+		// honest behaviours of the ONE reader-script generator of the body lanes: scripted read
+		// sizes incl. zero-length reads, EOF alone or together with the last bytes
+		sc := verifh.C01GenReaderScript(r, []int{0}, 1, []int{512, 1000, 4095, 4096, 4097, 8192, 16384, 32768, 40000})
+		tc.readSizes = sc.Sizes
+		tc.readEnding = verifh.Pick(r, []string{"eof", "eofl"})
 	}
 	if tc.bodyKind == "bytes" || tc.bodyKind == "string" {
 		// an in-memory body without Content-Type gets a sniffed one (C17): always name one here
@@ -479,7 +488,7 @@ func c01FireE2E(c *Client, o *c01Origin, tc *c01E2ECase) error {
 	case "string":
 		r.SetBodyString(string(tc.body))
 	case "reader":
-		r.SetBody(&c01ScriptReader{data: append([]byte(nil), tc.body...), sizes: []int{1, 4096, 1000, 16384}, rec: new([]int)})
+		r.SetBody(&verifh.C01BodyReader{Data: append([]byte(nil), tc.body...), Sizes: tc.readSizes, Ending: tc.readEnding})
 	case "func":
 		b := tc.body
 		r.SetBody(func() (io.ReadCloser, error) { return io.NopCloser(bytes.NewReader(b)), nil })
@@ -492,6 +501,13 @@ func c01FireE2E(c *Client, o *c01Origin, tc *c01E2ECase) error {
 	}
 	_, err := r.Send(tc.method, target)
 	return err
+}
+
+func c01ReadDesc(tc *c01E2ECase) string {
+	if tc.bodyKind != "reader" {
+		return ""
+	}
+	return fmt.Sprintf("(reads=%v,%s)", tc.readSizes, tc.readEnding)
 }
 
 // TestVerif_C01_e2e: the same request specs fired through the public API at in-process origins
@@ -554,7 +570,7 @@ func TestVerif_C01_e2e(t *testing.T) {
 			return "", false
 		}()
 		human := fmt.Sprintf("retries=%d ", tc.retries) + fmt.Sprintf("%q %q rpath=%q cpath=%q rq=%q cq=%q rhdr=%d chdr=%q nc=%q ck=%s/%s host=%q body=%s/%d order=%q pseudo=%q base=%v comp=%v ka=%v",
-			tc.method, tc.path, tc.rPath, tc.cPath, tc.rQuery, tc.cQuery, len(tc.rHdr), tc.cHdr, tc.nonCanon, c01Cookies(tc.rCk), c01Cookies(tc.cCk), tc.hostHdr, tc.bodyKind, len(tc.body), tc.order, tc.pseudo, tc.useBase, comp, ka)
+			tc.method, tc.path, tc.rPath, tc.cPath, tc.rQuery, tc.cQuery, len(tc.rHdr), tc.cHdr, tc.nonCanon, c01Cookies(tc.rCk), c01Cookies(tc.cCk), tc.hostHdr, tc.bodyKind+c01ReadDesc(tc), len(tc.body), tc.order, tc.pseudo, tc.useBase, comp, ka)
 		views := map[string]string{}
 		allSeen := true
 		class := ""
